@@ -49,8 +49,8 @@ def run(ctx, model):
         "parameter of the same-named iterate_* and returns its items in order.  R-YIELD: iterate_matches(_and_pos) "
         "yield group 0 and its own span for each abstract match, in order.")
     ctx.assumptions += [
-        "not decided: the text compile() compiles (get_pattern(), the printable export) is an equivalent regex to the "
-        "text the uncompiled path uses - a string-function fact over all patterns (see C03)",
+        "the text compile() compiles (get_pattern(), the printable export) is an equivalent regex to the text the uncompiled path "
+        "uses: decided by R-EXPORT-EQ for every DSL-escaped text over an adversarial alphabet up to length 3/4, not for all patterns",
         "what re itself returns (leftmost, non-overlapping, MULTILINE/DOTALL semantics) is re's documented behaviour",
     ]
     P = model.pregex
@@ -250,6 +250,15 @@ def run(ctx, model):
                                   detail=f"get: {str(rg[1])[:120]}  iterate: {str(ri[1])[:120]}")
     ctx.floor("R-WRAP", ctx.rule_counts.get("R-WRAP", 0), 7 * 4, "get_*/iterate_* comparisons")
 
+    # ---------------- R-EXPORT-EQ
+    cf2 = model.method(PRE, "Pregex", "compile")
+    kind, v, hooks, o = MM.run_method(model, "compile", [])
+    comp_calls = [c for c in hooks.calls if c["entry"] == "compile"]
+    if comp_calls and comp_calls[0]["pattern"] != PAT:
+        export_equivalence(ctx, model)     # compile() uses an exported form of the text: it must be an equivalent regex
+    else:
+        ctx.instance("R-EXPORT-EQ", key="identity", sample="compile() compiles the internal text itself")
+
     # ---------------- R-YIELD
     for compiled in (False, True):
         for meth in ("iterate_matches", "iterate_matches_and_pos"):
@@ -263,6 +272,14 @@ def run(ctx, model):
                 ctx.violation("R-YIELD", f.relpath, f.short, "<yielded items>",
                               f"{meth} does not yield group 0{' with its own span' if 'pos' in meth else ''} for each match in order",
                               f.node.lineno, inp=inp, detail=f"got {v!r}, want {want!r}")
+
+
+def export_equivalence(ctx, model):
+    """R-EXPORT-EQ: compile() compiles get_pattern() (the printable export) while the uncompiled arm uses the internal
+    text; the two must be the same regex.  Decided for every DSL-escaped text over an adversarial alphabet (shared
+    with C03 R-EXPORT)."""
+    from .c03 import _export
+    _export(ctx, model, RULE="R-EXPORT-EQ")
 
 
 def _defaults(f):
